@@ -672,7 +672,7 @@ Proof.
     pose proof (lun_sim K d s1 ch I R) as LS. destruct (update_lun_map d) as [dl hs].
     unfold fin in Hstep. inversion Hstep; subst. destruct LS. done4.
   - (* Candidates *)
-    inversion Hspec; inversion Hstep; subst. done4.
+    destruct cp as [c|]; [destruct (N.eqb c 0); [discriminate|]|]; inversion Hspec; inversion Hstep; subst; done4.
 Qed.
 
 (** whether the specification speaks about an operation does not depend on the hint *)
